@@ -1,6 +1,8 @@
-(* C17: the two classes repaired in validation/value.rs (fixes/fix-c17.patch), on their witnesses: the
-   specification's verdict, which the repaired code now gives, against the deviation as it was
-   (Known.v: xk_old_r_variables_defined, xk_old_r_values_correct_type). *)
+(* C17: the classes repaired in validation/value.rs (fixes/fix-c17.patch, fixes/fix2-c17-2.patch) and
+   validation/operation.rs (fixes/fix2-c17-1.patch), on their witnesses: the specification's verdict, which the
+   repaired code now gives, against the deviation as it was (Known.v: xk_old_r_variables_defined,
+   xk_old_r_values_correct_type, xk_old_r_subscription_single_root, xk_old_r_subscription_no_skip_include,
+   xk_old_r_variable_usages_allowed). *)
 From ApolloVerif Require Import Base.Chars Ast.Ast Schema.Model Exec.Compat Exec.Valid Exec.ValidProofs Exec.Known.
 
 Definition kx_Q : str := [81]. Definition kx_f : str := [102]. Definition kx_j : str := [106].
@@ -55,4 +57,138 @@ Lemma kx_neighbours :
   xv_r_values_correct_type (kx_schema (TNonNullNamed kx_JSON)) (kx_doc [] VNull) = false /\
   xv_exec_valid xv_apollo_params (kx_schema (TList (TNonNullNamed kx_JSON))) (kx_doc [] (VList [VList [VNull]])) = true /\
   xk_old_r_values_correct_type (kx_schema (TList (TNonNullNamed kx_JSON))) (kx_doc [] (VList [VList [VNull]])) = false.
+Proof. vm_compute. repeat split. Qed.
+
+(* ------------------------------------------------------------------------------------------------ *)
+(* subscription root fields and type conditions (fixes/fix2-c17-1.patch) *)
+Definition kx_I : str := [73]. Definition kx_O : str := [79]. Definition kx_S : str := [83].
+Definition kx_b : str := [98]. Definition kx_c : str := [99]. Definition kx_q : str := [113].
+Definition kx_F : str := [70].
+Definition kx_fd (n : str) : comp fielddef :=
+  mkcomp ODef {| fd_desc := None; fd_name := n; fd_args := []; fd_ty := TNamed xs_Int; fd_dirs := [] |}.
+Definition kx_skip_dd : dirdef :=
+  {| dd_desc := None; dd_name := xs_skip;
+     dd_args := [ {| iv_desc := None; iv_name := xs_if; iv_ty := TNonNullNamed xs_Boolean; iv_default := None;
+                     iv_dirs := [] |} ];
+     dd_repeatable := false; dd_locs := [LField; LFragmentSpread; LInlineFragment]; dd_builtin := true |}.
+
+(* interface I { a: Int }  type S implements I { a: Int b: Int }  type O implements I { a: Int c: Int }
+   type Q { q: Int }  schema { query: Q subscription: S } *)
+Definition kx_sub_schema : schema :=
+  {| sch_def := {| sd_desc := None; sd_dirs := []; sd_query := Some (mkcomp ODef kx_Q); sd_mutation := None;
+                   sd_subscription := Some (mkcomp ODef kx_S) |};
+     sch_dirdefs := [kx_skip_dd];
+     sch_types :=
+       [ EScalar None xs_Int [] true; EScalar None xs_Boolean [] true;
+         EInterface None kx_I [] [] [ kx_fd kx_a ] false;
+         EObject None kx_S [mkcomp ODef kx_I] [] [ kx_fd kx_a; kx_fd kx_b ] false;
+         EObject None kx_O [mkcomp ODef kx_I] [] [ kx_fd kx_a; kx_fd kx_c ] false;
+         EObject None kx_Q [] [] [ kx_fd kx_q ] false ] |}.
+
+Definition kx_sub (sels : list selection) : definition := DOperation OpSubscription None [] [] sels.
+Definition kx_leaf (n : str) (dirs : list directive) : selection := SField None n [] dirs [].
+Definition kx_skip_true : directive := {| d_name := xs_skip; d_args := [ (xs_if, VBool true) ] |}.
+
+(* `subscription { b ... on I { ... on O { c } } }`: CollectFields on the root type S enters `... on I` (S
+   implements I) and skips `... on O`: one root field, valid; the old walk counted `c` as a second root field.
+   `subscription { b ... on I { ...F } }  fragment F on O { c @skip(if: true) }`: F does not apply to S: valid (with apollo's
+   rule against @skip/@include at the root too); the old walk counted `c` and reported its @skip. *)
+Lemma kx_subscription_old_refuted :
+  (exists s d, xv_exec_valid xv_apollo_params s d = true /\
+               xk_old_r_subscription_single_root xv_apollo_params s d = false) /\
+  (exists s d, xv_exec_valid xv_apollo_params s d = true /\
+               xk_old_r_subscription_single_root xv_apollo_params s d = false /\
+               xk_old_r_subscription_no_skip_include xv_apollo_params s d = false).
+Proof.
+  split.
+  - exists kx_sub_schema,
+      [ kx_sub [ kx_leaf kx_b []; SInline (Some kx_I) [] [ SInline (Some kx_O) [] [ kx_leaf kx_c [] ] ] ] ].
+    vm_compute. repeat split.
+  - exists kx_sub_schema,
+      [ kx_sub [ kx_leaf kx_b []; SInline (Some kx_I) [] [ SSpread kx_F [] ] ];
+        DFragment kx_F kx_O [] [ kx_leaf kx_c [kx_skip_true] ] ].
+    vm_compute. repeat split.
+Qed.
+
+(* neighbours, by the specification (and the repaired code): a second field under an applicable condition is
+   still counted, directly (`... on I { a }` next to `b`) or through a named fragment on the root type itself;
+   @skip on a field under an applicable condition, and on the inapplicable inline fragment itself, is still
+   reported by apollo's rule; a repeated response key under an applicable condition is one root field *)
+Lemma kx_subscription_neighbours :
+  xv_r_subscription_single_root xv_apollo_params kx_sub_schema
+    [ kx_sub [ kx_leaf kx_b []; SInline (Some kx_I) [] [ kx_leaf kx_a [] ] ] ] = false /\
+  xv_r_subscription_single_root xv_apollo_params kx_sub_schema
+    [ kx_sub [ kx_leaf kx_b []; SSpread kx_F [] ]; DFragment kx_F kx_S [] [ kx_leaf kx_a [] ] ] = false /\
+  xv_r_subscription_no_skip_include xv_apollo_params kx_sub_schema
+    [ kx_sub [ SInline (Some kx_I) [] [ kx_leaf kx_a [kx_skip_true] ] ] ] = false /\
+  xv_r_subscription_no_skip_include xv_apollo_params kx_sub_schema
+    [ kx_sub [ kx_leaf kx_b []; SInline (Some kx_O) [kx_skip_true] [ kx_leaf kx_c [] ] ] ] = false /\
+  xv_exec_valid xv_apollo_params kx_sub_schema
+    [ kx_sub [ kx_leaf kx_a []; SInline (Some kx_I) [] [ kx_leaf kx_a [] ] ] ] = true.
+Proof. vm_compute. repeat split. Qed.
+
+(* ------------------------------------------------------------------------------------------------ *)
+(* D12d: variables nested in list and input-object literals (fixes/fix2-c17-2.patch) *)
+Definition kx_In : str := [73; 110]. Definition kx_x : str := [120]. Definition kx_y : str := [121].
+Definition kx_one : value := VInt [49].
+(* scalar Int  input In { x: Int!  y: Int! = 1 }  type Query { f(j: In): Int } *)
+Definition kx_in_schema : schema :=
+  {| sch_def := {| sd_desc := None; sd_dirs := []; sd_query := Some (mkcomp ODef kx_Q); sd_mutation := None;
+                   sd_subscription := None |};
+     sch_dirdefs := [];
+     sch_types :=
+       [ EScalar None xs_Int [] true;
+         EInput None kx_In []
+           [ mkcomp ODef {| iv_desc := None; iv_name := kx_x; iv_ty := TNonNullNamed xs_Int; iv_default := None;
+                            iv_dirs := [] |};
+             mkcomp ODef {| iv_desc := None; iv_name := kx_y; iv_ty := TNonNullNamed xs_Int;
+                            iv_default := Some kx_one; iv_dirs := [] |} ] false;
+         EObject None kx_Q [] []
+           [ mkcomp ODef {| fd_desc := None; fd_name := kx_f;
+                            fd_args := [ {| iv_desc := None; iv_name := kx_j; iv_ty := TNamed kx_In;
+                                            iv_default := None; iv_dirs := [] |} ];
+                            fd_ty := TNamed xs_Int; fd_dirs := [] |} ] false ] |}.
+Definition kx_var_d (t : ty) (dv : option value) : vardef :=
+  {| v_name := kx_v; v_ty := t; v_default := dv; v_dirs := [] |}.
+
+(* `query($v: [Int]) { f(j: [$v]) }` with `j: [Int]`: a list where an Int is expected (5.8.5);
+   `query($v: Int) { f(j: {x: $v}) }` and `query($v: Int = null) { f(j: {x: $v}) }` with `x: Int!`: a nullable
+   variable in a non-null position without default.  The old test compared the named types only (Int = Int) and the
+   documents validated. *)
+Lemma kx_nested_variable_old_refuted :
+  (exists s d, xv_r_variable_usages_allowed s d = false /\ xv_exec_valid xv_apollo_params s d = false /\
+               xk_old_exec_valid_nested_variable xv_apollo_params s d = true) /\
+  (exists s d, xv_r_variable_usages_allowed s d = false /\ xv_exec_valid xv_apollo_params s d = false /\
+               xk_old_exec_valid_nested_variable xv_apollo_params s d = true) /\
+  (exists s d, xv_r_variable_usages_allowed s d = false /\ xv_exec_valid xv_apollo_params s d = false /\
+               xk_old_exec_valid_nested_variable xv_apollo_params s d = true).
+Proof.
+  split; [|split].
+  - exists (kx_schema (TList (TNamed xs_Int))), (kx_doc [kx_var (TList (TNamed xs_Int))] (VList [VVar kx_v])).
+    vm_compute. repeat split.
+  - exists kx_in_schema, (kx_doc [kx_var (TNamed xs_Int)] (VObject [(kx_x, VVar kx_v)])).
+    vm_compute. repeat split.
+  - exists kx_in_schema, (kx_doc [kx_var_d (TNamed xs_Int) (Some VNull)] (VObject [(kx_x, VVar kx_v)])).
+    vm_compute. repeat split.
+Qed.
+
+(* neighbours, by the specification (and the repaired code): an Int variable as an item of [Int]; a non-null
+   variable, or a nullable one with a non-null default, for `x: Int!`; a nullable variable for `y: Int! = 1` (the
+   field's default makes the usage allowed); a nullable item variable for `[Int!]` is not allowed; an Int variable
+   where the input field expects a list is not allowed (no list coercion of variables) *)
+Lemma kx_nested_variable_neighbours :
+  xv_exec_valid xv_apollo_params (kx_schema (TList (TNamed xs_Int)))
+    (kx_doc [kx_var (TNamed xs_Int)] (VList [VVar kx_v])) = true /\
+  xv_exec_valid xv_apollo_params kx_in_schema
+    (kx_doc [kx_var (TNonNullNamed xs_Int)] (VObject [(kx_x, VVar kx_v)])) = true /\
+  xv_exec_valid xv_apollo_params kx_in_schema
+    (kx_doc [kx_var_d (TNamed xs_Int) (Some kx_one)] (VObject [(kx_x, VVar kx_v)])) = true /\
+  xv_exec_valid xv_apollo_params kx_in_schema
+    (kx_doc [kx_var (TNamed xs_Int)] (VObject [(kx_x, kx_one); (kx_y, VVar kx_v)])) = true /\
+  xv_r_variable_usages_allowed (kx_schema (TList (TNonNullNamed xs_Int)))
+    (kx_doc [kx_var (TNamed xs_Int)] (VList [VVar kx_v])) = false /\
+  xk_old_r_variable_usages_allowed (kx_schema (TList (TNonNullNamed xs_Int)))
+    (kx_doc [kx_var (TNamed xs_Int)] (VList [VVar kx_v])) = true /\
+  xv_r_variable_usages_allowed (kx_schema (TList (TList (TNamed xs_Int))))
+    (kx_doc [kx_var (TNamed xs_Int)] (VList [VVar kx_v])) = false.
 Proof. vm_compute. repeat split. Qed.
